@@ -212,6 +212,18 @@ func expandC07(t *testing.T, seed uint64, tier string) []*core.Plan {
 			p.Items = append(p.Items, core.Item{K: "settle"})
 		}
 	}
+	if seed%17 == 11 {
+		// self-subscribed publisher with a one-entry queue: it publishes to a
+		// topic it has subscribed to and does not acknowledge what comes back, so
+		// its own queue fills and MemoryBackend turns the next publish down
+		// (ErrQueueFull): a message the backend refuses is not acknowledged
+		p.Items = nil
+		p.SetKnob("selfsub", 1)
+		p.SetKnob("ackmode", 0)
+		p.SetKnob("defer", 0)
+		p.SetKnob("pubq", r.Pick(1, 1, 2))
+		return []*core.Plan{p}
+	}
 	if seed%13 == 8 {
 		// deaf resume: a publisher that has two QoS 2 handshakes open comes back
 		// on a new connection, fills the broker's acknowledgement queue with
@@ -301,6 +313,9 @@ func runC07(t *testing.T, p *core.Plan) *core.Result {
 		cfg.ParSubscribes = ps
 	}
 	cfg.GateBackend = p.Knob("gate", 0) == 1
+	if p.Knob("selfsub", 0) == 1 {
+		cfg.QueueSize, cfg.Inflight = 1, 1
+	}
 	var w *World
 	ptxt := core.Bubble(t, p.Seed, p.Yield, func() {
 		w = NewWorld(cfg, p.Seed, res)
@@ -318,6 +333,62 @@ func runC07(t *testing.T, p *core.Plan) *core.Result {
 		pb.connect(false)
 		armFault(pb.cur, p.Knob("fmode", 0), p.Knob("fk", 0))
 		first := pb.cur
+		if p.Knob("selfsub", 0) == 1 {
+			cur := pb.cur
+			cur.AckMode = 2 // it answers nothing that is delivered to it
+			sp := packet.NewSubscribe()
+			sp.ID = 90
+			sp.Subscriptions = []packet.Subscription{{Topic: "self/#", QOS: 1}}
+			cur.Send(sp)
+			w.Settle()
+			for i := 1; i <= 5 && !cur.EOF; i++ {
+				f := &pubFlow{id: packet.ID(i), tag: i, qos: p.Knob("pubq", 1), topic: "self/t"}
+				pb.flows = append(pb.flows, f)
+				pb.sendPublish(f, false)
+				w.Settle()
+				if f.qos == 2 {
+					// release the handshake at once
+					r := packet.NewPubrel()
+					r.ID = f.id
+					cur.Send(r)
+					w.Settle()
+				}
+			}
+			res.Count("self_subscribed_publishers", 1)
+			// every PUBACK/PUBCOMP the publisher saw must belong to a Publish call
+			// that the backend did not turn down
+			refused := map[int]bool{}
+			for _, e := range w.Hist {
+				if e.K == EvBkReturn && e.Call == "Publish" && e.M != nil && e.Err != nil {
+					refused[TagOf(e.M.Payload)] = true
+					res.Count("publishes_refused_by_backend", 1)
+				}
+			}
+			for _, e := range w.Hist {
+				if e.K != EvConnSend || e.C != cur.Idx {
+					continue
+				}
+				var id packet.ID
+				switch q := e.P.(type) {
+				case *packet.Puback:
+					id = q.ID
+				case *packet.Pubcomp:
+					id = q.ID
+				default:
+					continue
+				}
+				if refused[int(id)] {
+					res.Violate("C07", "C07.ack-order", "acked-although-refused", fmt.Sprintf("the broker wrote %s for message #%d although the backend had refused that message (queue full)", pktBrief(e.P), id))
+				}
+			}
+			if leaks := w.Teardown(); len(leaks) > 0 {
+				res.Violate("C07", "C07.leak", leaks[0], fmt.Sprintf("%d goroutines still alive after teardown: %v", len(leaks), leaks))
+			}
+			res.Yields = rt.Yields()
+			res.SimNanos = int64(core.SimNow())
+			res.Nontrivial = true
+			return
+		}
 		if p.Knob("deafresume", 0) == 1 {
 			// 1. open handshakes: PUBLISH + PUBREC, the PUBRELs are withheld
 			nOpen := p.Knob("open", 2)
